@@ -6,4 +6,4 @@ From SbmlImp Require Import SbmlImport.
 Import ListNotations.
 Open Scope string_scope.
 Definition gen_facts : facts :=
-  mkFacts "init_"%string "_stoich_"%string RxnInfixFn [SecVars; SecPars; SecDer; SecRxn] ParamsThenVars StemOnly "mb_"%string true.
+  mkFacts "init_"%string "_stoich_"%string RxnInfixFn [SecVars; SecPars; SecDer; SecRxn] ParamsThenVars StemOnly "mb_"%string RegFresh true.
